@@ -68,6 +68,10 @@ pub fn alphabet() -> Vec<St> {
     v.push(St { text: format!("{}[2] = 9", n), k: K::IndexAssign, targets: vec![n], reads: vec![], tmpl: "index-assign" });
     v.push(St { text: format!("{}[5] = 9", n), k: K::IndexAssign, targets: vec![n], reads: vec![], tmpl: "index-assign(out-of-range)" });
     v.push(St { text: format!("{}[[1 5]] = [7 8]", n), k: K::IndexAssign, targets: vec![n], reads: vec![], tmpl: "index-assign(partly-out-of-range)" });
+    // an out-of-range position after, and between, valid ones: nothing may be written before the statement fails
+    v.push(St { text: format!("{}[[1 5 2]] = 9", n), k: K::IndexAssign, targets: vec![n], reads: vec![], tmpl: "index-assign(out-of-range-inside-vector)" });
+    v.push(St { text: format!("{}[[2 0 1]] = 9", n), k: K::IndexAssign, targets: vec![n], reads: vec![], tmpl: "index-assign(zero-inside-vector)" });
+    v.push(St { text: format!("{}[[1 0]] += 9", n), k: K::IndexAssign, targets: vec![n], reads: vec![], tmpl: "index-op-assign(zero-after-valid)" });
     v.push(St { text: format!("{}[1] = \"s\"", n), k: K::IndexAssign, targets: vec![n], reads: vec![], tmpl: "index-assign(wrong-kind)" });
     v.push(St { text: format!("{} += 1", n), k: K::OpAssign, targets: vec![n], reads: vec![], tmpl: "op-assign" });
     v.push(St { text: format!("{}[1] += 1", n), k: K::OpAssign, targets: vec![n], reads: vec![], tmpl: "index-op-assign" });
